@@ -305,6 +305,9 @@ SL_CTX = [
     '(PH0 + PH1) * (PH2 + PH3)', '(PH0 + PH1) / (PH2 - PH3)', '(PH0) + (PH1)', '(PH0) * PH1 + (PH2)', '((PH0) + (PH1))', '(PH0 + PH1)', '((PH0 + PH1))',
     '(PH0 + PH1) * PH2', 'PH0 * (PH1 + PH2)', '(PH0 - PH1) - (PH2 - PH3) - (PH0)', '(-PH0) ** (PH1)', '(PH0, PH1)[0] + (PH2)', '[PH0, PH1][1] * (PH2)',
     'max(PH0, PH1) + (PH2)', '(PH0) + max(PH1, PH2)', 'exp(PH0) * (PH1)', '(PH0) if (PH1) > 0 else (PH2)',
+    # doubled brackets: '((' and '))' that close different groups, and pairs that are really redundant
+    '-((PH0) + (PH1))', 'PH0 / ((PH1 + PH2) * (PH3 - 2))', '((PH0) + (PH1)) * PH2', 'exp((PH0 + 1) * (PH1))', 'PH0 - ((PH1 - PH2) - (PH3))', '((PH0 + PH1)) * ((PH2))',
+    'PH0 ** ((PH1) - (PH2)) ** 2', 'max((PH0 + PH1) * (PH2), (PH3))',
     # blanks between a function name and its bracket, around arguments; no blanks around operators
     'log (PH0)', 'exp  (PH0)', 'exp\t(PH0)', 'max (PH0, PH1)', 'min  (PH0, PH1)', 'abs (PH0)', 'np.sqrt (PH0)', 'float (PH0)', 'np.maximum (PH0, PH1)',
     'exp( PH0 )', 'max(PH0,PH1)', 'max( PH0 , PH1 )', 'exp (log (PH0))', 'max (PH0, min (PH1, PH2))', '2 * log (PH0) + exp (PH1)',
